@@ -223,6 +223,10 @@ impl<T> ResourceController<T> {
 	}
 
 	pub fn try_reserve(&self) -> Result<Key, ResourceLimitReached> {
+		// an arena without slots has no first free slot to look at
+		if self.arena_controller.capacity() == 0 {
+			return Err(ResourceLimitReached);
+		}
 		self.arena_controller
 			.try_reserve()
 			.map_err(|_| ResourceLimitReached)
